@@ -509,6 +509,40 @@ func valueDesc(v merklize.Value) string {
 	return fmt.Sprintf("kinds=%v%v%v%v%v hash=%v err=%v", v.IsBool(), v.IsBigInt(), v.IsInt64(), v.IsTime(), v.IsString(), h, err != nil)
 }
 
+// fullObserve: Hasher() non-nil and the expected one, MkValue hashes, and the per-path
+// observables (incl. MtEntry of the proofs' Values) of a restored merklizer vs the original;
+// a panic anywhere is a failure class of its own.
+func (d *drv) fullObserve(s *scen, m1, m2 *merklize.Merklizer, want merklize.Hasher, ents map[string]mzrun.EntryView, what string) {
+	o := mzrun.Guard(60*time.Second, func() error {
+		if m2.Hasher() == nil {
+			d.rep.Fail("c13-hasher", what+": Hasher() of the restored merklizer is nil", s.in)
+		} else if m2.Hasher() != want {
+			d.rep.Fail("c13-hasher", what+": the restored merklizer does not hold the expected hasher", s.in)
+		}
+		tm := time.Unix(-86400*365, 123456789).UTC()
+		for _, v := range []any{int64(-5), int64(7), true, "mk value", tm, big.NewInt(-12345), big.NewInt(99)} {
+			a, e1 := m1.MkValue(v)
+			b, e2 := m2.MkValue(v)
+			if (e1 == nil) != (e2 == nil) {
+				d.rep.Fail("c13-mkvalue", fmt.Sprintf("%s: MkValue(%v): %v vs %v", what, v, e1, e2), s.in)
+				continue
+			}
+			if e1 != nil {
+				continue
+			}
+			if valueDesc(a) != valueDesc(b) {
+				d.rep.Fail("c13-mkvalue", fmt.Sprintf("%s: MkValue(%v): %s vs %s", what, v, valueDesc(a), valueDesc(b)), s.in)
+			}
+		}
+		ps := d.pathsFor(ents)
+		d.comparePaths(s, m1, m2, ps[:min(10, len(ps))], what)
+		return nil
+	})
+	if o.Class != "ok" {
+		d.rep.Fail("c13-observe-"+o.Class, what+": observing the restored merklizer: "+o.Msg, s.in)
+	}
+}
+
 // comparePaths: per-path observables on original vs restored.
 func (d *drv) comparePaths(s *scen, m1, m2 *merklize.Merklizer, paths [][]any, what string) {
 	ctx := context.Background()
@@ -788,8 +822,37 @@ func (d *drv) scenario(in Input) {
 			if mdir.VerifSafeMode() != m1.VerifSafeMode() {
 				d.rep.Fail("c13-safemode", "direct UnmarshalBinary: safe mode flag changed", in)
 			}
+			d.fullObserve(s, m1, &mdir, want, ents1, "zero-value UnmarshalBinary")
+		}
+		// encoding/gob on the Merklizer itself
+		var gbuf bytes.Buffer
+		var mg merklize.Merklizer
+		o = mzrun.Guard(30*time.Second, func() error {
+			if err := gob.NewEncoder(&gbuf).Encode(m1); err != nil {
+				return err
+			}
+			return gob.NewDecoder(&gbuf).Decode(&mg)
+		})
+		if o.Class != "ok" {
+			d.rep.Fail("c13-restore-"+o.Class, "gob Encode/Decode of the Merklizer failed: "+o.Msg, in)
+		} else {
+			if mg.Root().BigInt().Cmp(m1.Root().BigInt()) != 0 {
+				d.rep.Fail("c13-root", "gob round trip of the Merklizer restores another root", in)
+			}
+			d.compareEntries(s, ents1, entsOf(&mg), want, "gob round trip")
+			d.fullObserve(s, m1, &mg, want, ents1, "gob round trip")
 		}
 	}
+	// MerklizerFromBytes without any option (default-hasher originals only)
+	if !in.Cfg {
+		if mb, o := fromBytes(b1); o.Class != "ok" {
+			d.rep.Fail("c13-restore-"+o.Class, "MerklizerFromBytes(blob) without options failed: "+o.Msg, in)
+		} else {
+			d.compareEntries(s, ents1, entsOf(mb), want, "MerklizerFromBytes without options")
+			d.fullObserve(s, m1, mb, want, ents1, "MerklizerFromBytes without options")
+		}
+	}
+	d.fullObserve(s, m1, m2, want, ents1, "restore")
 
 	// (b) repeated marshals: different map orders, same outcome
 	orders := map[string]bool{}
@@ -1523,6 +1586,9 @@ func Run(cfg *common.Config) (*common.Report, error) {
 	rep.Correspondence = "Merklizer.BinaryRun.bmismatches: marshal / unmarshal / entry_marshal / entry_unmarshal (Merklizer/Binary.v) vs the typed content of the real gob stream of Merklizer.MarshalBinary, merklize.MerklizerFromBytes (hasher and tree options) and RDFEntry.MarshalBinary/UnmarshalBinary"
 	rep.Rule = "originals: merklizers of docgen documents and merklizers restored from hand-built streams (int64, big integers incl. negatives and p-1, bool, string incl. non-UTF-8 bytes, times with zone offsets and nanoseconds; 0..12 entries) x {default hasher, salted Poseidon, Poseidon mod 2^61-1} x {WithHasher given or not}; per original: 1 restore compared on every observable, 20 repeated marshals, 3 caller trees, the other hasher configuration, a later SetHasher, tampered streams (version, count +1/-1/-1/2^40 — the last first in a child process with capped address space —, malformed entries, truncation), originals with safe mode off, single-entry round trips (zero receiver and Options receiver). evaluations = per-path observable comparisons + single-entry round trips; distinct = distinct (document/stream, hasher, cfg); non-trivial = at least one entry."
 	d := &drv{cfg: cfg, rep: rep, loader: ctxload.New(), gen: docgen.New(cfg.Rng), orders: map[int]int{}}
+	// restores through entry points that take no options (zero-value UnmarshalBinary, gob,
+	// MerklizerFromBytes(blob)) resolve contexts through the package default loader
+	merklize.SetDocumentLoader(d.loader)
 	if cfg.Replay != "" {
 		var rf struct {
 			Input Input `json:"input"`
